@@ -136,110 +136,165 @@ fn b(a: Ast) -> Box<Ast> {
     Box::new(a)
 }
 
+/// Choices for the typed builder come from a pre-generated tape (one proptest value), so that the
+/// builder itself constructs no strategies and shrinking works on the tape.
+pub struct Tape<'a> {
+    data: &'a [u32],
+    pos: usize,
+}
+
+impl<'a> Tape<'a> {
+    pub fn new(data: &'a [u32]) -> Self {
+        Tape { data, pos: 0 }
+    }
+    /// monotone index in 0..n (a smaller tape value gives a smaller index)
+    fn pick(&mut self, n: usize) -> usize {
+        let x = if self.data.is_empty() { 0 } else { self.data[self.pos % self.data.len()] };
+        self.pos += 1;
+        ((x as u64 * n as u64) >> 32) as usize
+    }
+    fn exhausted(&self) -> bool {
+        self.pos >= self.data.len()
+    }
+}
+
+const ALL_T: [T; 6] = [T::Int, T::Float, T::Bool, T::Str, T::Tuple, T::Empty];
+
+fn typed_leaf(ty: T, t: &mut Tape) -> Ast {
+    use refmodel::value::RV;
+    match ty {
+        T::Int => match t.pick(4) {
+            0 => Ast::Var("i".into()),
+            1 => Ast::Var("j".into()),
+            _ => Ast::Lit(RV::Int(t.pick(100) as i64)),
+        },
+        T::Float => match t.pick(3) {
+            0 => Ast::Var("p".into()),
+            _ => Ast::Lit(RV::Float([0.5f64, 1.5, 2.0, 1e-3, 3e10][t.pick(5)])),
+        },
+        T::Bool => match t.pick(3) {
+            0 => Ast::Var("t".into()),
+            k => Ast::Lit(RV::Bool(k == 1)),
+        },
+        T::Str => match t.pick(3) {
+            0 => Ast::Var("s".into()),
+            _ => Ast::Lit(RV::Str(["", "a", "äb", "x y"][t.pick(4)].to_string())),
+        },
+        T::Tuple => Ast::Var("u".into()),
+        T::Empty => Ast::Empty,
+    }
+}
+
 /// An expression of static type `ty` over the typed context (assignments keep the variable's
 /// type, so they succeed in a mutable context).
-pub fn arb_typed(ty: T, depth: u32) -> BoxedStrategy<Ast> {
+pub fn build_typed(ty: T, depth: u32, t: &mut Tape) -> Ast {
     use refmodel::ast::{AssignOp, BinOp};
     use refmodel::value::RV;
-    let leaf: BoxedStrategy<Ast> = match ty {
-        T::Int => prop_oneof![(0i64..100).prop_map(|i| Ast::Lit(RV::Int(i))), Just(Ast::Var("i".into())), Just(Ast::Var("j".into()))].boxed(),
-        T::Float => prop_oneof![
-            proptest::sample::select(vec![0.5f64, 1.5, 2.0, 1e-3, 3e10]).prop_map(|f| Ast::Lit(RV::Float(f))),
-            Just(Ast::Var("p".into()))
-        ]
-        .boxed(),
-        T::Bool => prop_oneof![any::<bool>().prop_map(|x| Ast::Lit(RV::Bool(x))), Just(Ast::Var("t".into()))].boxed(),
-        T::Str => prop_oneof![
-            proptest::sample::select(vec!["", "a", "äb", "x y"]).prop_map(|x| Ast::Lit(RV::Str(x.to_string()))),
-            Just(Ast::Var("s".into()))
-        ]
-        .boxed(),
-        T::Tuple => Just(Ast::Var("u".into())).boxed(),
-        T::Empty => Just(Ast::Empty).boxed(),
-    };
-    if depth == 0 {
-        return leaf;
+    if depth == 0 || t.exhausted() || t.pick(5) == 0 {
+        return typed_leaf(ty, t);
     }
     let d = depth - 1;
-    let sub = move |t: T| arb_typed(t, d);
-    let any_ty = || proptest::sample::select(vec![T::Int, T::Float, T::Bool, T::Str, T::Tuple, T::Empty]);
-    let rec: BoxedStrategy<Ast> = match ty {
-        T::Int => prop_oneof![
-            4 => (proptest::sample::select(vec![BinOp::Add, BinOp::Sub, BinOp::Mul]), sub(T::Int), sub(T::Int)).prop_map(|(o, x, y)| Ast::Bin(o, b(x), b(y))),
-            1 => (sub(T::Int), 1i64..9).prop_map(|(x, k)| Ast::Bin(BinOp::Div, b(x), b(Ast::Lit(RV::Int(k))))),
-            1 => (sub(T::Int), 1i64..9).prop_map(|(x, k)| Ast::Bin(BinOp::Mod, b(x), b(Ast::Lit(RV::Int(k))))),
-            1 => sub(T::Int).prop_map(|x| Ast::Neg(b(x))),
-            1 => sub(T::Str).prop_map(|x| Ast::Call("len".into(), b(x))),
-            1 => sub(T::Int).prop_map(|x| Ast::Call("math::abs".into(), b(x))),
-            1 => sub(T::Int).prop_map(|x| Ast::Call("g".into(), b(x))),
-            1 => (sub(T::Bool), sub(T::Int), sub(T::Int)).prop_map(|(c, x, y)| Ast::Call("if".into(), b(Ast::Tuple(vec![c, x, y])))),
-            1 => (sub(T::Int), sub(T::Int)).prop_map(|(x, y)| Ast::Call("min".into(), b(Ast::Tuple(vec![x, y])))),
-            2 => (proptest::sample::select(vec![AssignOp::Set, AssignOp::Add, AssignOp::Mul]), sub(T::Int))
-                .prop_map(|(o, x)| Ast::Chain(vec![Ast::Assign(o, "i".into(), b(x)), Ast::Var("i".into())])),
-        ]
-        .boxed(),
-        T::Float => prop_oneof![
-            3 => (proptest::sample::select(vec![BinOp::Add, BinOp::Sub, BinOp::Mul, BinOp::Div, BinOp::Exp]), sub(T::Float), sub(T::Float))
-                .prop_map(|(o, x, y)| Ast::Bin(o, b(x), b(y))),
-            2 => (sub(T::Int), sub(T::Float)).prop_map(|(x, y)| Ast::Bin(BinOp::Add, b(x), b(y))),
-            1 => (sub(T::Int), sub(T::Int)).prop_map(|(x, y)| Ast::Bin(BinOp::Exp, b(x), b(y))),
-            1 => sub(T::Float).prop_map(|x| Ast::Call("math::sqrt".into(), b(x))),
-            1 => sub(T::Int).prop_map(|x| Ast::Call("floor".into(), b(x))),
-            1 => sub(T::Float).prop_map(|x| Ast::Chain(vec![Ast::Assign(AssignOp::Set, "p".into(), b(x)), Ast::Var("p".into())])),
-        ]
-        .boxed(),
-        T::Bool => prop_oneof![
-            3 => (proptest::sample::select(vec![BinOp::Lt, BinOp::Geq, BinOp::Eq, BinOp::Neq]), sub(T::Int), sub(T::Int)).prop_map(|(o, x, y)| Ast::Bin(o, b(x), b(y))),
-            2 => (proptest::sample::select(vec![BinOp::And, BinOp::Or]), sub(T::Bool), sub(T::Bool)).prop_map(|(o, x, y)| Ast::Bin(o, b(x), b(y))),
-            1 => sub(T::Bool).prop_map(|x| Ast::Not(b(x))),
-            1 => (sub(T::Str), sub(T::Str)).prop_map(|(x, y)| Ast::Bin(BinOp::Leq, b(x), b(y))),
-            1 => (sub(T::Tuple), sub(T::Int)).prop_map(|(x, y)| Ast::Call("contains".into(), b(Ast::Tuple(vec![x, y])))),
-            1 => (any_ty(), any_ty()).prop_flat_map(move |(t1, t2)| (arb_typed(t1, d), arb_typed(t2, d))).prop_map(|(x, y)| Ast::Bin(BinOp::Eq, b(x), b(y))),
-        ]
-        .boxed(),
-        T::Str => prop_oneof![
-            3 => (sub(T::Str), sub(T::Str)).prop_map(|(x, y)| Ast::Bin(BinOp::Add, b(x), b(y))),
-            2 => any_ty().prop_flat_map(move |t| arb_typed(t, d)).prop_map(|x| Ast::Call("str::from".into(), b(x))),
-            1 => any_ty().prop_flat_map(move |t| arb_typed(t, d)).prop_map(|x| Ast::Call("typeof".into(), b(x))),
-            1 => sub(T::Str).prop_map(|x| Ast::Call("str::to_uppercase".into(), b(x))),
-            1 => sub(T::Str).prop_map(|x| Ast::Chain(vec![Ast::Assign(AssignOp::Add, "s".into(), b(x)), Ast::Var("s".into())])),
-        ]
-        .boxed(),
-        T::Tuple => prop_oneof![
-            3 => proptest::collection::vec(any_ty().prop_flat_map(move |t| arb_typed(t, d)), 2..4).prop_map(Ast::Tuple),
-            1 => sub(T::Tuple).prop_map(|x| Ast::Call("f".into(), b(x))),
-        ]
-        .boxed(),
-        T::Empty => prop_oneof![
-            2 => (sub(T::Int)).prop_map(|x| Ast::Assign(AssignOp::Set, "i".into(), b(x))),
-            1 => (sub(T::Bool)).prop_map(|x| Ast::Assign(AssignOp::And, "t".into(), b(x))),
-            1 => any_ty().prop_flat_map(move |t| arb_typed(t, d)).prop_map(|x| Ast::Chain(vec![x, Ast::Empty])),
-        ]
-        .boxed(),
-    };
-    prop_oneof![1 => leaf, 4 => rec].boxed()
+    match ty {
+        T::Int => match t.pick(14) {
+            0..=3 => {
+                let o = [BinOp::Add, BinOp::Sub, BinOp::Mul][t.pick(3)];
+                Ast::Bin(o, b(build_typed(T::Int, d, t)), b(build_typed(T::Int, d, t)))
+            },
+            4 => Ast::Bin(BinOp::Div, b(build_typed(T::Int, d, t)), b(Ast::Lit(RV::Int(1 + t.pick(8) as i64)))),
+            5 => Ast::Bin(BinOp::Mod, b(build_typed(T::Int, d, t)), b(Ast::Lit(RV::Int(1 + t.pick(8) as i64)))),
+            6 => Ast::Neg(b(build_typed(T::Int, d, t))),
+            7 => Ast::Call("len".into(), b(build_typed(T::Str, d, t))),
+            8 => Ast::Call("math::abs".into(), b(build_typed(T::Int, d, t))),
+            9 => Ast::Call("g".into(), b(build_typed(T::Int, d, t))),
+            10 => Ast::Call(
+                "if".into(),
+                b(Ast::Tuple(vec![build_typed(T::Bool, d, t), build_typed(T::Int, d, t), build_typed(T::Int, d, t)])),
+            ),
+            11 => Ast::Call("min".into(), b(Ast::Tuple(vec![build_typed(T::Int, d, t), build_typed(T::Int, d, t)]))),
+            _ => {
+                let o = [AssignOp::Set, AssignOp::Add, AssignOp::Mul][t.pick(3)];
+                Ast::Chain(vec![Ast::Assign(o, "i".into(), b(build_typed(T::Int, d, t))), Ast::Var("i".into())])
+            },
+        },
+        T::Float => match t.pick(9) {
+            0..=2 => {
+                let o = [BinOp::Add, BinOp::Sub, BinOp::Mul, BinOp::Div, BinOp::Exp][t.pick(5)];
+                Ast::Bin(o, b(build_typed(T::Float, d, t)), b(build_typed(T::Float, d, t)))
+            },
+            3 | 4 => Ast::Bin(BinOp::Add, b(build_typed(T::Int, d, t)), b(build_typed(T::Float, d, t))),
+            5 => Ast::Bin(BinOp::Exp, b(build_typed(T::Int, d, t)), b(build_typed(T::Int, d, t))),
+            6 => Ast::Call("math::sqrt".into(), b(build_typed(T::Float, d, t))),
+            7 => Ast::Call("floor".into(), b(build_typed(T::Int, d, t))),
+            _ => Ast::Chain(vec![Ast::Assign(AssignOp::Set, "p".into(), b(build_typed(T::Float, d, t))), Ast::Var("p".into())]),
+        },
+        T::Bool => match t.pick(9) {
+            0..=2 => {
+                let o = [BinOp::Lt, BinOp::Geq, BinOp::Eq, BinOp::Neq][t.pick(4)];
+                Ast::Bin(o, b(build_typed(T::Int, d, t)), b(build_typed(T::Int, d, t)))
+            },
+            3 | 4 => {
+                let o = [BinOp::And, BinOp::Or][t.pick(2)];
+                Ast::Bin(o, b(build_typed(T::Bool, d, t)), b(build_typed(T::Bool, d, t)))
+            },
+            5 => Ast::Not(b(build_typed(T::Bool, d, t))),
+            6 => Ast::Bin(BinOp::Leq, b(build_typed(T::Str, d, t)), b(build_typed(T::Str, d, t))),
+            7 => Ast::Call("contains".into(), b(Ast::Tuple(vec![build_typed(T::Tuple, d, t), build_typed(T::Int, d, t)]))),
+            _ => {
+                let (t1, t2) = (ALL_T[t.pick(6)], ALL_T[t.pick(6)]);
+                Ast::Bin(BinOp::Eq, b(build_typed(t1, d, t)), b(build_typed(t2, d, t)))
+            },
+        },
+        T::Str => match t.pick(8) {
+            0..=2 => Ast::Bin(BinOp::Add, b(build_typed(T::Str, d, t)), b(build_typed(T::Str, d, t))),
+            3 | 4 => {
+                let ty = ALL_T[t.pick(6)];
+                Ast::Call("str::from".into(), b(build_typed(ty, d, t)))
+            },
+            5 => {
+                let ty = ALL_T[t.pick(6)];
+                Ast::Call("typeof".into(), b(build_typed(ty, d, t)))
+            },
+            6 => Ast::Call("str::to_uppercase".into(), b(build_typed(T::Str, d, t))),
+            _ => Ast::Chain(vec![Ast::Assign(AssignOp::Add, "s".into(), b(build_typed(T::Str, d, t))), Ast::Var("s".into())]),
+        },
+        T::Tuple => match t.pick(4) {
+            0..=2 => {
+                let n = 2 + t.pick(2);
+                Ast::Tuple((0..n).map(|_| { let ty = ALL_T[t.pick(6)]; build_typed(ty, d, t) }).collect())
+            },
+            _ => Ast::Call("f".into(), b(build_typed(T::Tuple, d, t))),
+        },
+        T::Empty => match t.pick(4) {
+            0 | 1 => Ast::Assign(AssignOp::Set, "i".into(), b(build_typed(T::Int, d, t))),
+            2 => Ast::Assign(AssignOp::And, "t".into(), b(build_typed(T::Bool, d, t))),
+            _ => {
+                let ty = ALL_T[t.pick(6)];
+                Ast::Chain(vec![build_typed(ty, d, t), Ast::Empty])
+            },
+        },
+    }
 }
 
 /// Typed programs rendered to source over the typed context (with small random perturbations of
 /// the context so that not every run sees the same values).
 pub fn arb_typed_program(depth: u32) -> BoxedStrategy<Program> {
     (
-        proptest::sample::select(vec![T::Int, T::Float, T::Bool, T::Str, T::Tuple, T::Empty]),
+        0usize..6,
+        proptest::collection::vec(any::<u32>(), 8..64),
         gen::arb_bits(),
         0u8..3,
         -5i64..50,
         any::<bool>(),
     )
-        .prop_flat_map(move |(ty, bits, style, iv, disabled_f)| {
-            arb_typed(ty, depth).prop_map(move |ast| {
-                let toks = render_tokens(&ast, &mut BitChoices::new(&bits));
-                let mut ctx = typed_ctx();
-                ctx.vars.insert("i".into(), refmodel::value::RV::Int(iv));
-                if disabled_f {
-                    ctx.funcs.remove("f");
-                }
-                Program { family: "typed", src: render_style(&toks, style), ast: Some(ast), ctx }
-            })
+        .prop_map(move |(ty, tape, bits, style, iv, without_f)| {
+            let ast = build_typed(ALL_T[ty], depth, &mut Tape::new(&tape));
+            let toks = render_tokens(&ast, &mut BitChoices::new(&bits));
+            let mut ctx = typed_ctx();
+            ctx.vars.insert("i".into(), refmodel::value::RV::Int(iv));
+            if without_f {
+                ctx.funcs.remove("f");
+            }
+            Program { family: "typed", src: render_style(&toks, style), ast: Some(ast), ctx }
         })
         .boxed()
 }
